@@ -18,6 +18,8 @@ package rules
 
 import (
 	"slices"
+	"strconv"
+	"strings"
 	"sync"
 
 	"github.com/dadrus/heimdall/internal/heimdall"
@@ -59,7 +61,7 @@ func (r *repository) FindRule(ctx heimdall.Context) (rule.Rule, error) {
 	defer r.rulesTreeMutex.RUnlock()
 
 	entry, err := r.index.Find(
-		x.IfThenElse(len(request.URL.RawPath) != 0, request.URL.RawPath, request.URL.Path),
+		decodeUnreserved(x.IfThenElse(len(request.URL.RawPath) != 0, request.URL.RawPath, request.URL.Path)),
 		radixtree.LookupMatcherFunc[rule.Route](func(route rule.Route, keys, values []string) bool {
 			return route.Matches(ctx, keys, values)
 		}),
@@ -201,4 +203,39 @@ func (r *repository) removeRulesFrom(tree *radixtree.Tree[rule.Route], tbdRules 
 	}
 
 	return nil
+}
+
+// decodeUnreserved decodes those percent-encoded octets of the given raw path, which represent unreserved
+// characters (letters, digits, '-', '.', '_' and '~'). According to RFC 3986, section 6.2.2.2 such URIs are
+// equivalent, so that e.g. /b%61r is matched by the same rule as /bar. All other percent-encoded octets,
+// like encoded slashes, are left untouched.
+func decodeUnreserved(rawPath string) string {
+	if !strings.Contains(rawPath, "%") {
+		return rawPath
+	}
+
+	var sb strings.Builder
+
+	sb.Grow(len(rawPath))
+
+	for i := 0; i < len(rawPath); i++ {
+		if rawPath[i] == '%' && i+2 < len(rawPath) {
+			if val, err := strconv.ParseUint(rawPath[i+1:i+3], 16, 8); err == nil && isUnreserved(byte(val)) {
+				sb.WriteByte(byte(val))
+
+				i += 2
+
+				continue
+			}
+		}
+
+		sb.WriteByte(rawPath[i])
+	}
+
+	return sb.String()
+}
+
+func isUnreserved(char byte) bool {
+	return (char >= 'a' && char <= 'z') || (char >= 'A' && char <= 'Z') || (char >= '0' && char <= '9') ||
+		char == '-' || char == '.' || char == '_' || char == '~'
 }
